@@ -16,7 +16,16 @@ Parts (worker jobs):
   wrap     propagator.stochastic_reconfiguration_local/global with the real jax.random (offset =
            uniform(split(key)[1]), key advanced once), on not_a_comm, the R=1 world and R=2 threads;
            not_a_comm vs the R=1 virtual world operation by operation
+  hist     operation sequences: every word of length <= 2 (3 thorough) over a menu of populations {real / complex
+           walkers, another walker count, another orbital shape, rhf / uhf container} run call after call in ONE
+           freshly started interpreter on one communicator object (not_a_comm, R=1 world, R=2 rank threads);
+           every kernel's every output compared BY VALUE with input[serial comb selection] -- the result of a
+           call must not depend on the calls that preceded it (state kept between calls)
   driver   (thorough) driver.afqmc itself on R=2 rank threads under all schedules with <=1 preemption
+
+The wrapper layer is driven with the propagate()-like words AND with words holding entries far outside
+[1e-3, 100] (250, 1e4, 1e-6, huge/tiny letters), for both containers and local/global, and is compared by value
+with the NumPy kernel at the same offset.
 """
 
 from __future__ import annotations
@@ -33,7 +42,8 @@ from mc.core import HarnessError, Result
 ID = "C07"
 TECHNIQUE = ("exact enumeration of every comb-offset interval between breakpoints (count functions and their "
              "integral in rational arithmetic) x weight words; all-schedule exploration of rank threads over a "
-             "virtual MPI communicator")
+             "virtual MPI communicator; bounded operation sequences over a population menu in one fresh process "
+             "(call results must not depend on the preceding calls); wrappers on weight words far outside [1e-3,100]")
 WORKERS = 8
 TOL = 1e-9
 
@@ -1219,7 +1229,11 @@ def run(ctx):
         "ties where no float operation rounds), for every implementation; a state is one (word, offset); non-trivial = "
         "the interval's count vector is not all ones (a walker was duplicated/killed).  mpi: the same words of length R*n "
         "on R rank threads.  sched: every schedule (choice sequence of the controller: which enabled rank fires, eager or "
-        "rendezvous for each send) of the rank bodies; a state is one explored execution prefix.")
+        "rendezvous for each send) of the rank bodies; a state is one explored execution prefix.  hist: every word of "
+        "length <= 2 (quick) / 3 (thorough) over the population menu {rhf real, rhf complex, rhf complex other count, rhf "
+        "real other shape, uhf complex, uhf real}, all words run in order in one fresh interpreter, all applicable kernels "
+        "per letter, outputs compared by value; a state is one word.  wrap: 3 propagate()-like words + 6 words with "
+        "entries >> 100 / << 1e-3 per class, container, local/global.")
     ctx.assume("weights are float64 letters taken as exact rationals; offsets closer than 2^-30 to a breakpoint (other than "
                "rounding-free exact ties) are outside the probed set: the float comparison there is decided by rounding")
     ctx.assume("intervals shorter than 4*2^-30 cannot be probed; in the exact mean they enter with the reference count "
@@ -1227,6 +1241,8 @@ def run(ctx):
                "vector is below N*4*2^-30)")
     ctx.assume("virtual MPI: collectives matched by per-rank sequence number; a send's deposit is a left-mover (only enables "
                "others); eager and rendezvous completion are the two send behaviours explored; data copied at deposit")
+    ctx.assume("hist: process-level state is observed through call sequences of length <= 2 (3) started from a fresh "
+               "interpreter; mixed-dtype (real up / complex down) containers are outside the menu")
     seed, tier = ctx.seed, ctx.tier
     jobs = sched_jobs(tier, seed) + comb_jobs(tier, seed) + mpi_jobs(tier, seed)
     jobs.append(dict(part="wrap", seed=seed, sizes=[4] if tier == "quick" else [4, 7],
